@@ -266,8 +266,8 @@ def r_cost(ctx):
         spec = add(const_part, app("/", var_part, K(2)))
         ok = canon(em) == canon(spec)
         if not ok:
-            # guards may be spelled differently: compare the two parts leniently on their bodies and loops
-            ok = _cost_parts_match(em, loops, C, lo, hi, is_const)
+            # guards may be spelled differently: compare the two parts semantically
+            ok, _why = _cost_parts_match(norm(em), norm(spec))
         if ok:
             ctx.ok("R-IND-DEF", f"{where} [{describe_config(run)}]", sample={"emitted": show(em)[:400]})
         else:
@@ -281,8 +281,41 @@ def r_cost(ctx):
         raise P.AnalysisError(f"R-IND-DEF: IndicatorResourceCost: plain-worker configuration not found")
 
 
-def _cost_parts_match(em, loops, C, lo, hi, is_const):
-    return False
+def _cost_parts_match(em, spec):
+    """both sides are  <constant part: a Sum>  +  <variable part: a Sum> / 2 (either part may be absent); each pair of sums is
+    compared by cases over the guard atoms (decide.guarded_sum_equiv): the spelling of the `cost == 0 / == 1` shortcuts and
+    of the constant / non constant split is free"""
+    from sa.decide import guarded_sum_equiv, Undecided
+
+    def parts(t):
+        const, var = None, None
+        for a in (t[2:] if is_app(t, "+") else (t,)):
+            if is_app(a, "/") and len(a) == 4 and a[3] == K(2) and is_app(a[2], "Sum"):
+                if var is not None:
+                    return None
+                var = a[2]
+            elif is_app(a, "Sum"):
+                if const is not None:
+                    return None
+                const = a
+            else:
+                return None
+        return const, var
+    pe, ps = parts(em), parts(spec)
+    if pe is None or ps is None:
+        return False, "not of the form Sum(...) + Sum(...) / 2"
+    for which, a, b in (("constant-cost part", pe[0], ps[0]), ("variable-cost part", pe[1], ps[1])):
+        if a is None or b is None:
+            if a is not b:
+                return False, f"{which}: present on one side only"
+            continue
+        try:
+            ok, wit = guarded_sum_equiv(a, b)
+        except Undecided as u:
+            return False, f"{which}: undecided ({u})"
+        if not ok:
+            return False, f"{which}: {str(wit)[:300]}"
+    return True, "case analysis over the guard atoms"
 
 
 def r_objective_indicators(ctx):
@@ -325,7 +358,38 @@ def r_objective_indicators(ctx):
             if scope == "all" and canon(it) != canon(all_tasks):
                 ctx.violation("R-IND-DEF", where, "ranges over every task of the problem", f"ranges over {show(it)[:200]}", location)
                 continue
-            compare_def(ctx, "R-IND-DEF", where, loc(defs[0][1]), em, fn(run, it), describe_config(run))
+            spec_t = fn(run, it)
+            sum_args = em[2:] if is_app(em, "Sum") else ()
+            if len(sum_args) == 1 and isinstance(sum_args[0], tuple) and sum_args[0] and sum_args[0][0] == "list":
+                sum_args = sum_args[0][1]
+            eaches = [a for a in sum_args if isinstance(a, tuple) and a and a[0] == "each"]
+            alts = {}
+            for e_ in eaches:
+                el = ("elem", e_[1][0])
+                cfg = tuple(g for g in e_[2] if not any(x == el for x in subterms(g)))
+                alts.setdefault((repr(canon(e_[1][0][3])), repr(canon(And(*cfg)) if cfg else "")), (e_[1][0][3], cfg))
+            if len(alts) >= 2 and all(c for _, c in alts.values()):
+                if True:
+                    # the iterable is chosen by a conditional and the extractor walks each alternative under its condition: the
+                    # documented sum over each alternative under the same condition, compared by cases over the guards
+                    from sa.decide import guarded_sum_equiv, Undecided
+                    parts = []
+                    for it_x, cfg_x in alts.values():
+                        inner = fn(run, it_x)[2]
+                        parts.append(("each", inner[1], tuple(cfg_x), inner[3]))
+                    try:
+                        ok_, wit_ = guarded_sum_equiv(em, app("Sum", *parts))
+                    except Undecided as u:
+                        raise P.AnalysisError(f"R-IND-DEF: {where}: {u}")
+                    if ok_:
+                        ctx.ok("R-IND-DEF", f"{where} [{describe_config(run)}]", sample={"emitted": show(norm(em))[:300], "decided_by": "cases over the guards"})
+                    else:
+                        ctx.violation("R-IND-DEF", where, "documented definition",
+                                      f"the indicator is defined as {show(norm(em))[:400]} ; documented {show(norm(app('Sum', *parts)))[:300]} ; {str(wit_)[:300]}",
+                                      loc(defs[0][1]))
+                    spec_t = None
+            if spec_t is not None:
+                compare_def(ctx, "R-IND-DEF", where, loc(defs[0][1]), em, spec_t, describe_config(run))
             # the objective targets that indicator and minimises it
             tgt = run.heap.get((SELF, "target"))
             kind = run.heap.get((SELF, "kind"))
@@ -534,8 +598,12 @@ def r_cost_func(ctx):
         inner = body_r
         if inner[0] == "phi" and canon(norm(inner[3])) == canon(norm(car_r)):
             if canon(norm(inner[1])) != canon(norm(ne(idx(coeffs, i), K(0)))):
-                problems.append(f"a term is skipped under {show(norm(inner[1]))[:120]}, which is not `coefficient != 0`")
+                problems.append(f"a term is added only under {show(norm(inner[1]))[:120]}, which is not `coefficient != 0`")
             inner = inner[2]
+        elif inner[0] == "phi" and canon(norm(inner[2])) == canon(norm(car_r)):
+            if canon(norm(inner[1])) != canon(norm(eq(idx(coeffs, i), K(0)))):
+                problems.append(f"a term is skipped under {show(norm(inner[1]))[:120]}, which is not `coefficient == 0`")
+            inner = inner[3]
         if canon(norm(inner)) != canon(norm(step_term)):
             problems.append(f"each iteration adds {show(norm(inner))[:200]}, not result + coefficients[i] * power")
         if canon(norm(body_v)) != canon(norm(mul(car_v, X))):
@@ -589,5 +657,13 @@ def r_cost_func(ctx):
     ctx.floor("R-COST-FUNC", "cost function class x configuration rows", n, 6)
 
 
-RULES = [r_ind_def, r_cost_func, r_minmax, r_ind_name, r_ind_read, r_ind_constraint,
+def r_same_horizon(ctx):
+    """'utilisation as the percentage of the horizon': the horizon the indicator divides by (the user's value when the problem
+    has one, the horizon variable otherwise - R-IND-DEF) is the horizon delivered with the same solution: build_solution
+    reports the user's value when given, else the model value of the horizon variable (R-HORIZON-REPORT, shared with C11)"""
+    from rules import solution
+    solution.r_horizon_report(ctx)
+
+
+RULES = [r_ind_def, r_same_horizon, r_cost_func, r_minmax, r_ind_name, r_ind_read, r_ind_constraint,
          lambda ctx: resource_constraints.r_union_exh(ctx, bases=("Indicator", "Objective"))]
